@@ -179,6 +179,10 @@ def floor(tier):
     out.append(_case("mpfa", dict(grids[0]), 963, "num_subproblems", 2, "nodes_random", 1, 0.5))
     if tier == "thorough":
         out.append(_case("biot", dict(hexa), 964, "max_memory", 3, "nodes_random", 1, 0.5))
+    # a grid with many (> 512) local systems of equal size: batched / vectorised inverters
+    # must agree with the other back-end beyond their first batch
+    out.append(_case("mpfa", {"kind": "cart", "dim": 2, "n": [25, 24], "phys": [2.5, 2.4]},
+                     971, "num_subproblems", 2, "cells", 2, 0.5))
     return out
 
 
